@@ -157,28 +157,27 @@ def processRulesAfter (sort : List Rule → List Rule) (p : Proc) (history : Lis
     (rules : List Rule) : List Rule × List Rule :=
   processRules sort (p.run history).flag rules
 
+/-- non-decreasing priorities (adjacent pairs) -/
+def sortedB : List Rule → Bool
+  | [] => true
+  | [_] => true
+  | a :: b :: t => decide (a.prio ≤ b.prio) && sortedB (b :: t)
+
 /-- Validator used where the order among equal priorities is free (the correspondence then
     *checks* an observed run instead of predicting it): `exec` = names of the started rules in
     order, `errs` = names in the error report, for the triggered `rules` (name = position).
-    Accepts iff the run is `processRules` for *some* admissible sort: no rule twice, priorities
-    never decrease, no rule left out has a smaller priority than a started one; without the flag
-    nothing is left out; with it no started rule but the last fails and the sequence goes on to
-    the end unless the last one fails; the report holds exactly the failing started rules. -/
+    It completes the observed start order to a candidate sort result (the started rules, then the
+    others sorted), checks that this is a permutation of the rules in non-decreasing priority
+    order, and that the model's loop run on it starts exactly `exec` and reports exactly `errs`
+    (as a set). `validRun_sound` / `validRun_complete`: it accepts exactly the runs of
+    `processRules` under *some* admissible sort. -/
 def validRun (flag : Bool) (rules : List Rule) (exec errs : List Nat) : Bool :=
   let execR := exec.filterMap fun i => rules[i]?
   let rest := rules.filter fun r => !exec.contains r.name
-  exec.all (· < rules.length) && exec.eraseDups.length == exec.length &&
-  (execR.zip execR.tail).all (fun p => decide (p.1.prio ≤ p.2.prio)) &&
-  rest.all (fun x => execR.all fun e => decide (e.prio ≤ x.prio)) &&
-  (if flag then
-     execR.dropLast.all (fun r => !r.fails) &&
-     (match execR.getLast? with
-      | some l => if l.fails then true else rest.isEmpty
-      | none => rest.isEmpty)
-   else rest.isEmpty) &&
-  errs.eraseDups.length == errs.length &&
-  errs.all (fun i => (execR.any fun r => r.name == i && r.fails)) &&
-  (execR.filter (·.fails)).all (fun r => errs.contains r.name)
+  let cand := execR ++ stableSort rest
+  cand.isPerm rules && sortedB cand &&
+  ((execLoop flag cand []).1.map (·.name) == exec) &&
+  ((execLoop flag cand []).2.map (·.name)).isPerm errs
 
 /-- specification function: the prefix up to and including the first failing rule -/
 def uptoFirstFail : List Rule → List Rule
@@ -283,6 +282,16 @@ def checkTrace : TQ → Nat → List QEv → Option Nat
     match t.pop root with
     | some (m, t') => if m.val == mon then checkTrace t' (k + 1) rest else some k
     | none => some k
+
+/-- the state after a trace, if every pop returned the model's least item of its root
+    (`checkTrace` = this, reporting the position of the first offending pop) -/
+def runTrace : TQ → List QEv → Option TQ
+  | t, [] => some t
+  | t, .push root prio mon :: rest => runTrace (t.push root mon prio) rest
+  | t, .pop root mon :: rest =>
+    match t.pop root with
+    | some (m, t') => if m.val == mon then runTrace t' rest else none
+    | none => none
 
 /-- the same replay on the real representation (`HPQ`: container/heap on the slice) -/
 def checkTraceH : List (Nat × HPQ) → Nat → List QEv → Option Nat
